@@ -85,9 +85,9 @@ def run(ctx):
     sizes = {"expr": 500 if q else 40000, "file": 350 if q else 30000,
              "lit": 100 if q else 2000, "layout": 400 if q else 6000, "near": 25 if q else 250,
              "unparen": 400 if q else 6000, "ungram": 330 if q else 1700}
-    coq_cap = {"expr": 30 if q else 1500, "file": 25 if q else 1200, "near": 110 if q else 2500,
-               "layout": 50 if q else 2000, "int": 120 if q else 3000, "float": 50 if q else 1500,
-               "unparen": 90 if q else 2500, "ungram": 330 if q else 1700}
+    coq_cap = {"expr": 30 if q else 1500, "file": 25 if q else 1200, "near": 80 if q else 2500,
+               "layout": 30 if q else 2000, "int": 80 if q else 3000, "float": 30 if q else 1500,
+               "unparen": 60 if q else 2500, "ungram": 120 if q else 1700}
     tokcap = 40 if q else 160
     obs = {}
     dist = {}
